@@ -26,7 +26,7 @@ func (p *propC18) Rule() string {
 }
 func (p *propC18) Assumptions() []string {
 	return []string{
-		"component model written from the profile's component columns for the five message kinds the statement names; a destination that is also transmitted explicitly, and enhanced_speed when compressed_speed_distance expands, are don't-cares",
+		"component model written from the profile's component columns for the five message kinds the statement names; a valid source decides its destination even when the destination is also transmitted in the same record; don't-cares: an explicitly transmitted running total (distance, total_cycles, accumulated_power) next to its source, enhanced_speed when compressed_speed_distance expands, and the gear/score bytes when data is transmitted next to a valid data16",
 		"accumulated destination = running sum of masked deltas since the start of the same stream, first delta taken from 0",
 		"known findings D9 (total_cycles / accumulated_power accumulators have mask 0), D10 (compressed distance loses bits 8-11), D11 (accumulators are package-level) are classified by signature predicates and reported as KNOWN-FINDING; any other wrong value is a VIOLATION",
 	}
@@ -66,6 +66,19 @@ func pat16(r *Rng) uint64 {
 }
 
 // genComponentStream builds one component-bearing stream.
+// pat32: values for explicitly transmitted 32-bit destinations
+func pat32(r *Rng) uint64 {
+	switch r.Intn(6) {
+	case 0:
+		return 0xFFFFFFFF
+	case 1:
+		return uint64(r.Intn(0x10000))
+	case 2:
+		return 0x10000 + uint64(r.Intn(0x100))
+	}
+	return r.U64() & 0xFFFFFFFF
+}
+
 func genComponentStream(r *Rng, ft byte, focus uint16) *RecStream {
 	g := &streamGen{r: r, o: StreamOpts{FT: ft, Arch: r.Intn(3)}}
 	fl := byte(r.Intn(16))
@@ -99,8 +112,22 @@ func genComponentStream(r *Rng, ft byte, focus uint16) *RecStream {
 					d.Fields = append(d.Fields, [3]int{int(pf.Num), sz, int(pf.Base)})
 				}
 			}
+			// destinations transmitted next to their sources: the source still decides
+			for _, n := range []string{"EnhancedAltitude", "EnhancedSpeed"} {
+				if r.Chance(1, 6) {
+					d.Fields = append(d.Fields, [3]int{fnum(gl, n), 4, 0x86})
+				}
+			}
 			if len(d.Fields) == 0 {
 				d.Fields = [][3]int{{fnum(gl, "CompressedSpeedDistance"), 3, 0x0D}}
+			}
+			if r.Bool() {
+				perm := r.Perm(len(d.Fields))
+				nf := make([][3]int, len(d.Fields))
+				for i, j := range perm {
+					nf[i] = d.Fields[j]
+				}
+				d.Fields = nf
 			}
 			g.emitDef(d)
 			n := r.Range(2, 30)
@@ -139,7 +166,11 @@ func genComponentStream(r *Rng, ft byte, focus uint16) *RecStream {
 					case fnum(gl, "HeartRate"):
 						b[0] = byte(r.Intn(255))
 					default:
-						putN(b, d.be(), pat16(r))
+						if fd[1] == 4 {
+							putN(b, d.be(), pat32(r))
+						} else {
+							putN(b, d.be(), pat16(r))
+						}
 					}
 					pl = append(pl, b...)
 				}
@@ -155,8 +186,16 @@ func genComponentStream(r *Rng, ft byte, focus uint16) *RecStream {
 					d.Fields = append(d.Fields, [3]int{fnum(gl, n), 2, 0x84})
 				}
 			}
-			if r.Chance(1, 4) {
-				d.Fields = append(d.Fields, [3]int{fnum(gl, "EnhancedAvgAltitude"), 4, 0x86}) // explicit destination (don't-care 5)
+			// explicit destinations, before or after their sources
+			for _, n := range names {
+				if r.Chance(1, 6) {
+					f := [3]int{fnum(gl, "Enhanced"+n), 4, 0x86}
+					if r.Bool() {
+						d.Fields = append(d.Fields, f)
+					} else {
+						d.Fields = append([][3]int{f}, d.Fields...)
+					}
+				}
 			}
 			if len(d.Fields) == 0 {
 				d.Fields = [][3]int{{fnum(gl, "AvgAltitude"), 2, 0x84}}
@@ -167,7 +206,7 @@ func genComponentStream(r *Rng, ft byte, focus uint16) *RecStream {
 				for _, fd := range d.Fields {
 					b := make([]byte, fd[1])
 					if fd[1] == 4 {
-						putN(b, d.be(), r.U64()&0xFFFFFFFF)
+						putN(b, d.be(), pat32(r))
 					} else {
 						putN(b, d.be(), pat16(r))
 					}
